@@ -67,6 +67,29 @@ pub fn replay_mapped(case: &Value, tally: &mut Tally) {
             }
         }
     }
+    // every view type requested at EVERY element offset of the file - most of them not the start of a record of that type, so the
+    // "header" the constructor reads is arbitrary library-written data (item values up to u64::MAX included).  Any result is
+    // acceptable (an error, a view that happens to lie inside the file, a panic) except a view that extends past the mapping:
+    // the carve hooks of the view constructors decide that (C08).
+    {
+        if let Ok(map) = MemoryMap::new(&path, MappingMode::ReadOnly) {
+            for off in 0..total {
+                let _ = guarded(|| MappedSlice::<u64>::new(&map, off).map(|m| m.len()));
+                let _ = guarded(|| MappedSlice::<(u64, u64)>::new(&map, off).map(|m| m.len()));
+                let _ = guarded(|| MappedBytes::new(&map, off).map(|m| m.len()));
+                let _ = guarded(|| MappedStr::new(&map, off).map(|m| m.len()));
+                let _ = guarded(|| RawVectorMapper::new(&map, off).map(|m| m.len()));
+                let _ = guarded(|| IntVectorMapper::new(&map, off).map(|m| m.len()));
+                let _ = guarded(|| MappedOption::<MappedSlice<u64>>::new(&map, off).map(|m| m.is_some()));
+                let _ = guarded(|| MappedOption::<MappedSlice<(u64, u64)>>::new(&map, off).map(|m| m.is_some()));
+                let _ = guarded(|| MappedOption::<MappedBytes>::new(&map, off).map(|m| m.is_some()));
+                let _ = guarded(|| MappedOption::<MappedStr>::new(&map, off).map(|m| m.is_some()));
+                let _ = guarded(|| MappedOption::<RawVectorMapper>::new(&map, off).map(|m| m.is_some()));
+                let _ = guarded(|| MappedOption::<IntVectorMapper>::new(&map, off).map(|m| m.is_some()));
+                tally.evals += 12;
+            }
+        }
+    }
     // every truncation to whole elements
     for t in 1..total {
         std::fs::write(&path, &buf[..8 * t]).unwrap();
